@@ -51,6 +51,7 @@ fn main() {
         "probe-dup" => probe::dup(&args),
         "probe-shapes" => probe::shapes(&args),
         "probe-fsl" => probe::fsl(&args),
+        "probe-fullzip" => probe::fullzip(&args),
         "probe-v20list" => probe::v20list(&args),
         _ => {
             eprintln!("unknown subcommand {sub}");
